@@ -775,7 +775,7 @@ impl Terminal {
         if self.cursor.row == self.top_margin {
             self.scroll_down_in_region(1);
         } else if self.cursor.row > 0 {
-            self.move_cursor_to_row(self.cursor.row - 1);
+            self.do_move_cursor_to_row(self.cursor.row - 1);
         }
     }
 
